@@ -1,3 +1,5 @@
 -- root of the library: property theorems and the driver handlers
 import RasnModel.Props.C06
 import RasnModel.Driver.C06
+import RasnModel.Props.C14
+import RasnModel.Driver.C14
